@@ -1,5 +1,7 @@
 """C12 — ECP angular quadrature is exact to its design degree; the projector is exact."""
 import fractions
+import os
+import sys
 import itertools
 import json
 import math
@@ -113,17 +115,21 @@ def check_legendre(ck):
     xs = [F(k, 8) for k in range(-8, 9)] + [F(int(ck.rng.integers(-64, 65)), 64) for _ in range(20)]
     exprs = ["map (fun l => qz (P_table l %s)) [0;1;2;3;4]%%nat" % ("(%d # %d)" % (x.numerator, x.denominator) if x >= 0 else "((%d) # %d)" % (x.numerator, x.denominator)) for x in xs]
     vals = ck.coq_eval("legendre", ["C12.Model"], exprs, scope="Q_scope")
+    import pyqmc.observables.ecp_accumulator as ea
+    copies = [("eval_ecp", ee, S_PL)] + ([("ecp_accumulator", ea, "pyqmc/observables/ecp_accumulator.py:P_l")] if hasattr(ea, "P_l") else [])
     for x, v in zip(xs, vals):
         ck.case(("pl", str(x)))
-        for l in range(5):
-            ok, got = ck.guarded(lambda: ee.P_l(np.array([float(x)]), l)[0], "legendre", S_PL, {"x": str(x), "l": l})
-            if not ok or v is None:
-                continue
-            m = F(*v[l])
-            if F(*float(got).as_integer_ratio()) != m:
-                ck.violation("legendre_value", S_PL, {"x": str(x), "l": l}, expected=float(m), got=float(got), oracle="exact rational Legendre polynomial (dyadic x: float arithmetic is exact)")
-    if not np.all(ee.P_l(np.array([0.3, -0.7]), -1) == 0):
-        ck.violation("legendre_value", S_PL, {"l": -1}, expected=0, got=ee.P_l(np.array([0.3]), -1).tolist())
+        for tag, mod, site in copies:
+            for l in range(5):
+                ok, got = ck.guarded(lambda: mod.P_l(np.array([float(x)]), l)[0], "legendre", site, {"x": str(x), "l": l, "copy": tag})
+                if not ok or v is None:
+                    continue
+                m = F(*v[l])
+                if F(*float(got).as_integer_ratio()) != m:
+                    ck.violation("legendre_value", site, {"x": str(x), "l": l, "copy": tag}, expected=float(m), got=float(got), oracle="exact rational Legendre polynomial (dyadic x: float arithmetic is exact)")
+    for tag, mod, site in copies:
+        if not np.all(mod.P_l(np.array([0.3, -0.7]), -1) == 0):
+            ck.violation("legendre_value", site, {"l": -1, "copy": tag}, expected=0, got=mod.P_l(np.array([0.3]), -1).tolist())
     # get_P_l folds (2l+1) and the weights exactly once
     for naip in DEGREE:
         r = np.array([0.7, 1.9])
@@ -276,6 +282,41 @@ def check_mixed_rules(ck):
                          oracle="sum of single-atom evaluations, each with that atom's own quadrature rule, same orientation")
 
 
+LEGENDRE_THEOREMS = ["C12_legendre_source_eval_ecp", "C12_legendre_source_ecp_accumulator", "C12_legendre_source_is_the_model_table"]
+
+
+def check_legendre_source(ck):
+    """Tie T for P_l: every copy of P_l in /repo is translated to a rational expression (gen/Legendre_Gen.v) and proved to be the Bonnet recurrence for
+    every argument. When the source is no longer in the shape the translator reads (an if/elif chain of arithmetic returns), this tie is reported as
+    not available in the evidence and the hand model P_table + its exact correspondence on dyadic arguments (check_legendre) remains the tie: no alarm."""
+    import importlib
+    from common import REPO, COQ
+    sys.path.insert(0, os.path.join(os.path.dirname(os.path.dirname(os.path.abspath(__file__))), "translator"))
+    gl = importlib.import_module("gen_legendre")
+    try:
+        evals = gl.main_for(REPO, os.path.join(COQ, "gen"))
+    except gl.TranslationError as ex:
+        ck.stats["legendre_source_translation"] = "not available for the current source (%s); the tie is the exact correspondence of P_table" % ex
+        return
+    except Exception as ex:  # noqa
+        ck.stats["legendre_source_translation"] = "translator failed (%r); the tie is the exact correspondence of P_table" % ex
+        return
+    ck.stats["legendre_source_translation"] = "translated %d branches" % len(evals)
+    # validation of the translation against the running functions
+    import pyqmc.observables.eval_ecp as ee
+    import pyqmc.observables.ecp_accumulator as ea
+    mods = {"eval_ecp": ee, "ecp_accumulator": ea}
+    xs = [F(int(ck.rng.integers(-1000, 1001)), 1000) for _ in range(12)]
+    for (tag, l), ev in sorted(evals.items()):
+        for x in xs:
+            ok, got = ck.guarded(lambda: float(np.asarray(mods[tag].P_l(np.array([float(x)]), l))[0]), "legendre", S_PL, {"x": str(x), "l": l, "copy": tag})
+            if ok and abs(got - float(ev(x))) > 1e-13 * max(1.0, abs(got)):
+                ck.correspondence_broken("translation of %s.P_l (l=%d) vs the running function" % (tag, l), json.dumps({"x": str(x), "translated": float(ev(x)), "impl": got}))
+                return
+        ck.case(("pl_src", tag, l))
+    ck.coq_build("C12", LEGENDRE_THEOREMS, props_files=["C12/PropsLegendre.v"], timeout=600)
+
+
 def main(argv):
     ck = Check("C12", argv)
     ck.rule = ("the six rules are built in exact rings inside Coq and printed; every copy of generate_quadrature_grids in /repo is compared with them point by point (1e-14) and tested on all monomials up to its degree in random orientations; "
@@ -285,6 +326,7 @@ def main(argv):
     ck.assumptions = ["rotation invariance of the uniform measure and 'degree is preserved by linear substitution' (rotated grids) and the Funk-Hecke formula (projector) are classical facts used by the numerical oracles, not proved in Coq",
                       "the theorems are about the exact point sets; the implementation's doubles agree with them to 1e-14"]
     ck.coq_build("C12", THEOREMS, timeout=2400)
+    check_legendre_source(ck)
     check_grids(ck)
     check_legendre(ck)
     check_projector(ck)
